@@ -410,9 +410,12 @@ pub fn rvalue(r: &mut Rng, ty: &str) -> String {
 
 pub const TYPES: [&str; 13] = ["order", "update", "id", "side", "tif", "peg", "tx", "txlist", "mr", "stats", "snap", "queue", "level"];
 
-const ALPHABET: [&str; 40] = [
+// incl. characters of the Unicode numeric categories that are not ASCII digits (Arabic-Indic and fullwidth digits,
+// superscript, fraction, Roman numeral, circled number): `char::is_numeric` accepts them, `to_digit(10)` does not
+const ALPHABET: [&str; 47] = [
     ":", ";", "=", ",", "[", "]", "-", "+", "0", "9", "1", "a", "F", "G", "T", "D", "S", "é", "ſ", "ı", "😀", "ß", " ", "{", "}", "(", ")",
     "None", "true", "GTD-", "orders=[", "Transactions:[", "id=", "price=", "\u{212A}", "ﬁ", "Z", "u", "I", "L",
+    "٣", "３", "²", "½", "Ⅷ", "①", "५",
 ];
 
 /// character-level edits of a valid encoding (deletion, insertion, substitution, duplication of a
@@ -421,7 +424,7 @@ pub fn mutate(r: &mut Rng, s: &str) -> String {
     let chars: Vec<char> = s.chars().collect();
     let n = chars.len();
     let mut out: String;
-    match r.below(8) {
+    match r.below(9) {
         0 if n > 0 => {
             let i = r.below(n as u64) as usize;
             out = chars[..i].iter().chain(chars[i + 1..].iter()).collect();
@@ -473,6 +476,19 @@ pub fn mutate(r: &mut Rng, s: &str) -> String {
             let parts: Vec<&str> = s.split(';').collect();
             let k = r.below(parts.len() as u64) as usize;
             out = parts.iter().enumerate().filter(|(i, _)| *i != k).map(|(_, x)| *x).collect::<Vec<_>>().join(";");
+        }
+        7 => {
+            // replace one ASCII digit (of a number, a timestamp, an id) by a numeric character that is not an ASCII
+            // digit, or put a sign in front of it
+            let digits: Vec<usize> = (0..n).filter(|i| chars[*i].is_ascii_digit()).collect();
+            if digits.is_empty() {
+                out = s.to_string();
+            } else {
+                let i = *r.pick(&digits);
+                out = chars[..i].iter().collect();
+                out.push_str(*r.pick(&["٣", "３", "²", "½", "Ⅷ", "①", "५", "+", "-", "+1", "0x", "1e", "_"]));
+                out.extend(chars[i + if r.chance(1, 2) { 1 } else { 0 }..].iter());
+            }
         }
         _ => {
             let i = r.below(n as u64 + 1) as usize;
